@@ -509,7 +509,7 @@ fabric record and the networks, or (the networks cannot be stored) the record of
 the fail-safe and its removal: the store between them is the store before with the record written -/
 theorem sessOp_complete_seg (cfg : Cfg) (n : Node) (sid s : Nat) (mode : Mode) :
     One n (sessOp cfg n sid mode (.complete s)).1 ∨
-    ∃ f, Seg n (sessOp cfg n sid mode (.complete s)).1 [n.kv.putFabric f] ∧
+    ∃ f, getFabric n mode.fab = some f ∧ Seg n (sessOp cfg n sid mode (.complete s)).1 [n.kv.putFabric f] ∧
       n.hist.length + 2 = (sessOp cfg n sid mode (.complete s)).1.hist.length := by
   simp only [sessOp]
   split
@@ -536,7 +536,7 @@ theorem sessOp_complete_seg (cfg : Cfg) (n : Node) (sid s : Nat) (mode : Mode) :
           cases b2 with
           | true =>
             rcases hst2 with ⟨_, hkv2, hh2⟩ | ⟨hb, _⟩
-            · refine Or.inr ⟨f, ⟨[n2.kv], [], ?_, (by simp), (fun _ h => by cases h), (fun kv h => ?_), (fun h => by simp at h)⟩, ?_⟩
+            · refine Or.inr ⟨f, rfl, ⟨[n2.kv], [], ?_, (by simp), (fun _ h => by cases h), (fun kv h => ?_), (fun h => by simp at h)⟩, ?_⟩
               · simp only [ok]; rw [hh2, hh1', hkv2]; rfl
               · simp only [ok]; rw [List.mem_singleton.mp h]; exact KV.Same.refl _
               · simp only [ok]; rw [hh2, hh1']; simp
@@ -550,7 +550,7 @@ theorem sessOp_complete_seg (cfg : Cfg) (n : Node) (sid s : Nat) (mode : Mode) :
                 rw [hh0, hk0]
                 show n2.hist = n2.kv :: n.hist
                 rw [hh2, hkv2, hh1', hkv1']
-              · refine Or.inr ⟨f, ⟨[(undoAdded { n2 with managed := n1.managed } f.idx).kv], [], ?_, (by simp),
+              · refine Or.inr ⟨f, rfl, ⟨[(undoAdded { n2 with managed := n1.managed } f.idx).kv], [], ?_, (by simp),
                   (fun _ h => by cases h), (fun kv h => ?_), (fun h => by simp at h)⟩, ?_⟩
                 · rw [hh0, hk0]
                   show n2.kv.delFabric f.idx :: n2.hist = _
@@ -690,20 +690,22 @@ them (the store before with one fabric record written), then elements equal to t
 theorem step_seg (cfg : Cfg) (n : Node) (op : Op) (hop : op ≠ .freset) (hrw : rewinds op = false) :
     ∃ mid, Seg n (step cfg n op).1 mid ∧
       (mid = [] ∨ (twoWriteComplete cfg n op ∧
-        ∃ s f, op = .complete s ∧ mid = [(checkTimeouts cfg n (some s)).1.kv.putFabric f])) := by
+        ∃ s f s1, op = .complete s ∧ getSess (checkTimeouts cfg n (some s)).1 s = some s1 ∧
+          getFabric (checkTimeouts cfg n (some s)).1 s1.mode.fab = some f ∧
+          mid = [(checkTimeouts cfg n (some s)).1.kv.putFabric f])) := by
   cases hso : isSessOp op with
   | some sid =>
     have hq := checkTimeouts_quiet cfg n (some sid)
-    rcases step_sess cfg n op sid hso with e | e | ⟨s1, _, e⟩
+    rcases step_sess cfg n op sid hso with e | e | ⟨s1, hg1, e⟩
     · exact ⟨[], by rw [e]; exact one_of_quiet (quiet_refl n), Or.inl rfl⟩
     · exact ⟨[], by rw [e]; exact one_of_quiet hq, Or.inl rfl⟩
     · by_cases hc : ∃ s, op = .complete s
       · obtain ⟨s, rfl⟩ := hc
         have hsid : sid = s := by simpa [isSessOp] using hso.symm
         subst hsid
-        rcases sessOp_complete_seg cfg (checkTimeouts cfg n (some sid)).1 sid sid s1.mode with h | ⟨f, h, hlen⟩
+        rcases sessOp_complete_seg cfg (checkTimeouts cfg n (some sid)).1 sid sid s1.mode with h | ⟨f, hgf, h, hlen⟩
         · exact ⟨[], by rw [e]; exact quiet_one hq h, Or.inl rfl⟩
-        · refine ⟨_, by rw [e]; exact quiet_seg hq h, Or.inr ⟨⟨sid, rfl, ?_⟩, sid, f, rfl, rfl⟩⟩
+        · refine ⟨_, by rw [e]; exact quiet_seg hq h, Or.inr ⟨⟨sid, rfl, ?_⟩, sid, f, s1, rfl, hg1, hgf, rfl⟩⟩
           rw [e, ← hlen]; exact Nat.le_refl _
       · refine ⟨[], ?_, Or.inl rfl⟩
         rw [e]
@@ -714,7 +716,9 @@ theorem step_seg (cfg : Cfg) (n : Node) (op : Op) (hop : op ≠ .freset) (hrw : 
 def StepSnaps (cfg : Cfg) (n : Node) (op : Op) : Prop :=
   ∀ kv ∈ (step cfg n op).1.hist,
     kv ∈ n.hist ∨ KV.Same kv n.kv ∨ KV.Same kv (step cfg n op).1.kv ∨
-    (∃ s, op = .complete s ∧ (∃ f, KV.Same kv (n.kv.putFabric f)) ∧
+    (∃ s, op = .complete s ∧
+      (∃ f s1, getSess (checkTimeouts cfg n (some s)).1 s = some s1 ∧
+        getFabric (checkTimeouts cfg n (some s)).1 s1.mode.fab = some f ∧ KV.Same kv (n.kv.putFabric f)) ∧
       (checkTimeouts cfg n (some s)).1.hist.length + 2 ≤ (step cfg n op).1.hist.length)
 
 theorem step_snaps (cfg : Cfg) (n : Node) (op : Op) (hop : op ≠ .freset) : StepSnaps cfg n op := by
@@ -725,11 +729,11 @@ theorem step_snaps (cfg : Cfg) (n : Node) (op : Op) (hop : op ≠ .freset) : Ste
     · exact Or.inl h
     · exact Or.inr (Or.inl h)
     · exact Or.inr (Or.inr (Or.inl h))
-    · rcases hmid with rfl | ⟨⟨s, rfl, hlen⟩, s', f, hs', rfl⟩
+    · rcases hmid with rfl | ⟨⟨s, rfl, hlen⟩, s', f, s1, hs', hg1, hgf, rfl⟩
       · cases h
       · injection hs' with hs'
         subst hs'
-        refine Or.inr (Or.inr (Or.inr ⟨s, rfl, ⟨f, ?_⟩, hlen⟩))
+        refine Or.inr (Or.inr (Or.inr ⟨s, rfl, ⟨f, s1, hg1, hgf, ?_⟩, hlen⟩))
         rw [List.mem_singleton.mp h]
         have hq := checkTimeouts_quiet cfg n (some s)
         exact same_putFabric f hq.1
